@@ -1,7 +1,7 @@
 //! C17 — tokenizer: tokens tile the source and carry exact positions.
 //!
 //! Oracle (see `c17_ref.rs`): an independent maximal-munch reference lexer over the documented token set
-//! plus an independent line index. Cases: (a) every string up to a length bound over a 22-symbol alphabet
+//! plus an independent line index. Cases: (a) every string up to a length bound over a 23-symbol alphabet
 //! and every short sequence of token-class fragments (`extra_phase`, exhaustive), (b) tape-driven random
 //! concatenations of token-class fragments.
 use arbitrary::Unstructured;
@@ -504,8 +504,8 @@ impl Check for C17 {
     }
 
     fn rule(&self) -> String {
-        "cases: (a) EXHAUSTIVE: every string of length <= 5 (quick) / <= 6 (thorough) over the 22 symbols \
-         a e _ 1 0 . \" ' \\n space \\t \\r / - > < = : ! + ö 字, and every concatenation of <= 2 (quick) / <= 3 (thorough) fragments of the \
+        "cases: (a) EXHAUSTIVE: every string of length <= 5 (quick) / <= 6 (thorough) over the 23 symbols \
+         a e _ 1 0 . \" ' \\n space \\t \\r / - > < = : ! + ö 字 ！(U+FF01, shares two UTF-8 bytes with the fullwidth digits), and every concatenation of <= 2 (quick) / <= 3 (thorough) fragments of the \
          fragment list (all fixed spellings, keyword prefixes/extensions, numerals such as 1. .1 1e5 1e+ 1e-3 1..2 1.e3 and numerals \
          without value, strings with embedded newlines / multi-byte characters / unterminated, comments with and without newline, \
          operators with prefixes and extensions, conflict markers, CR/LF/tab mixes, non-ASCII letters, 4-byte emoji, combining marks, \
